@@ -265,6 +265,35 @@ def tables(cfg, crate, rep):
     want = {"RFC822Name": (["Rfc822Name"], [], True), "DNSName": (["DnsName"], [], True), "DirectoryName": (["DirectoryName"], [], True), "URI": None, "OtherName": None,
             "IPAddress/8": (["IpAddress", "V4"], [[("head", 4)], [("tail", 4)]], True), "IPAddress/32": (["IpAddress", "V6"], [[("head", 16)], [("tail", 16)]], True), "IPAddress/5": None}
     rep.ob("C17.tables", "%s|%s" % (cfg, fn), got == want, "GeneralName -> GeneralSubtree conversion inverts the writer's table; subnets are split addr||mask at 4 / 16 exactly when the octet string has 8 / 32 octets; other forms are skipped", expected=want, found=got)
+    # name constraints: the two lists come from their own halves of the extension, and an extension that is present is
+    # dropped (None) at most when *both* converted lists are empty
+    fn = P + "convert_x509_name_constraints"
+    rep.fn(fn)
+    In_ = Interp(crate)
+    outn = In_.run_fn(fn)
+    bad_nc = []
+    n_some = 0
+    for c_, x_ in common.distribute(outn["value"]):
+        x0_ = core(x_)
+        inner_ = core(x0_.fields.get("0")) if isinstance(x0_, StructV) and x0_.variant == "Ok" and "0" in x0_.fields else None
+        if inner_ is None:
+            continue
+        ext_present = any(a[0] == "some" and "name_constraints(x509)" in a[1] and F.evalf(c_, {b: (b == a) for b in F.atoms(c_)}) for a in F.atoms(c_)) or \
+            any(a[0] == "some" and "name_constraints(x509)" in a[1] and not F.counterexamples(c_, ("atom", a), "implies") for a in F.atoms(c_) if len(F.atoms(c_)) <= 12)
+        if isinstance(inner_, StructV) and inner_.variant == "Some":
+            nc_ = core(inner_.fields.get("0"))
+            if isinstance(nc_, StructV) and (nc_.adt or "").endswith("NameConstraints"):
+                n_some += 1
+                for fld, other in (("permitted_subtrees", "excluded_subtrees"), ("excluded_subtrees", "permitted_subtrees")):
+                    fv_ = nc_.fields.get(fld)
+                    txt_ = core(fv_).r() if fv_ is not None else ""
+                    if fv_ is None or ("." + fld) not in txt_ and "Vec::new" not in txt_ or ("." + other) in txt_:
+                        bad_nc.append("%s is not built from the extension's %s only: %s" % (fld, fld, txt_[-120:]))
+        elif isinstance(inner_, StructV) and inner_.variant == "None" and ext_present:
+            empt = [a for a in F.atoms(c_) if a[0] == "empty" and len(F.atoms(c_)) <= 12 and not F.counterexamples(c_, ("atom", a), "implies")]
+            if not (any("permitted_subtrees" in a[1] for a in empt) and any("excluded_subtrees" in a[1] for a in empt)):
+                bad_nc.append("a present extension is dropped when %s" % F.show(c_)[-160:])
+    rep.ob("C17.tables", "%s|%s" % (cfg, fn), n_some >= 1 and not bad_nc, "imported name constraints keep both subtree lists (each from its own half of the extension); a present extension is dropped at most when both lists are empty", found=bad_nc or n_some)
     # is_ca: decision table over {extension present, cA, pathLen present, pathLen <= 255}
     fn = P + "convert_x509_is_ca"
     rep.fn(fn)
